@@ -253,7 +253,11 @@ func (g *gen) trigger(cb *CB, w string) {
 		return
 	}
 	q := regexp.QuoteMeta(w)
-	form := r.Intn(12)
+	form := r.Intn(15)
+	if form >= 12 {
+		g.upperClass(cb, w)
+		return
+	}
 	if nonASCII(w) && (form == 9 || form == 10) {
 		// \b is an ASCII word boundary: useless next to a non-ASCII letter
 		form = []int{0, 3, 5, 6, 11}[r.Intn(5)]
@@ -294,6 +298,43 @@ func (g *gen) trigger(cb *CB, w string) {
 		cb.Re = `\b` + regexp.QuoteMeta(g.render(w)) + `\b`
 	case 11:
 		cb.Re = `(?m)^.*` + q + `.*$`
+	}
+}
+
+// upperClass gives an insensitive callback a pattern on the word that contains an upper-case
+// escape class (\S \D \W \B \A, also inside a character class; \PL / \pL and \z as neighbours):
+// written "in lower case" in the sense of the quantifier - no capital literal - and matched by the
+// library against the lower-cased output as it stands.
+func (g *gen) upperClass(cb *CB, w string) {
+	r := g.r
+	q := regexp.QuoteMeta(w)
+	rs := []rune(w)
+	var forms []string
+	forms = append(forms,
+		q+`\D`,           // something that is not a digit follows
+		q+`[\D]`,         // the same inside a character class
+		`(?s)\A.*`+q,     // from the very start of the output
+		`(?m)^\S.*`+q,    // on a line that does not start with a blank
+		q+`\S`,           // a non-blank follows immediately (not when the device prints a blank)
+		q+`[\S\n]`,       // a non-blank or the end of the line follows
+		q+`\PL`,          // something that is not a letter follows
+		q+`\pL*[:?]?\s*\z`, // the word (and more letters) at the very end of the output
+	)
+	if !nonASCII(w) {
+		forms = append(forms,
+			q+`\W`,   // a non-word byte follows
+			q+`[\W_]`,
+			`\W`+q,   // a non-word byte precedes
+			q+`\b\W`,
+		)
+		if len(rs) >= 4 {
+			h := len(rs) / 2
+			forms = append(forms, regexp.QuoteMeta(string(rs[:h]))+`\B`+regexp.QuoteMeta(string(rs[h:]))) // no word boundary inside the word
+		}
+	}
+	cb.Re = forms[r.Intn(len(forms))]
+	if r.Intn(4) == 0 {
+		cb.Contains = "zz-never" // pattern next to a literal text
 	}
 }
 
@@ -961,7 +1002,7 @@ func init() {
 		Level: "exploration",
 		Rule: "PRNG-generated callback lists (1-6 callbacks: contains / upper-case contains under insensitivity / case-sensitive / regexp in lower case, end-anchored, " +
 			"with own (?i) / contains+regexp / not-contains present-before, present-after, absent, other case / once / complete / complete without function / " +
-			"literal texts with leading / trailing blanks, tabs, newlines which the device sometimes leaves out / not-contains words with blanks around them occurring inside other words / case-sensitive patterns without own case flag spelled in another case than the device prints / options handed to NewCallback in a PRNG order spelled out per callback / reset-output off / next-timeout / functions that return an error on a chosen run (own validation error, or a one-shot transport write fault on the answer's return character); in 55 % of the cases trigger texts, patterns, not-contains texts and device output use letters with case from the Latin-1 supplement, " +
+			"literal texts with leading / trailing blanks, tabs, newlines which the device sometimes leaves out / not-contains words with blanks around them occurring inside other words / case-sensitive patterns without own case flag spelled in another case than the device prints / options handed to NewCallback in a PRNG order spelled out per callback / insensitive patterns with upper-case escape classes (\\S \\D \\W \\B \\A, inside character classes, next to \\PL \\pL \\z, alone or next to contains / not-contains) / reset-output off / next-timeout / functions that return an error on a chosen run (own validation error, or a one-shot transport write fault on the answer's return character); in 55 % of the cases trigger texts, patterns, not-contains texts and device output use letters with case from the Latin-1 supplement, " +
 			"Cyrillic, Greek and a few whose case mapping changes the byte length, printed by the device in lower / Title / UPPER case) against a causal scripted device (answers typed by the callbacks advance the dialogue; echo on/off; repeated questions; " +
 			"several keywords in one text; decoys sharing keywords; 1 % of the cases are paged outputs of 60-100 / 101-140 / 301-360 pages with one callback run per page and a completing callback on the last page) under PRNG segmentation (1..16-byte, whole, geometric, mixed reads; boundaries fall inside multi-byte letters); texts of very different length so that the output a callback " +
 			"object is checked against shrinks and grows; 40 % of the chains with an input repeat the operation 2-3 times with the same callback objects. " +
